@@ -258,6 +258,15 @@ theorem lexIdent_dot (inp : Array UInt8) (q : Nat) (id : Bytes) (d : Nat) (w : I
     omega
   rw [hdig]
   simp only [Bool.false_eq_true, if_false]
+  have hlet : ((byteAt inp (q + 1) : Nat) : Int) = 95 ∨ isLetterU ((byteAt inp (q + 1) : Nat) : Int) = true := by
+    have := letter_idStart hst
+    by_cases h95 : ((byteAt inp (q + 1) : Nat) : Int) = 95
+    · exact Or.inl h95
+    · right
+      cases hl : isLetterU ((byteAt inp (q + 1) : Nat) : Int) with
+      | true => rfl
+      | false => exact absurd ⟨h95, by simp [hl]⟩ this
+  rw [if_pos hlet]
   unfold lexIdentRest
   simp only [bind, Option.bind]
   rw [scanWhile_alnum inp q dd ts le its d hd id.length (q + 1) 1 (by omega)
@@ -1412,6 +1421,12 @@ mutual
     | .dflt b r => initBlk b ++ [(b.trail, r.head)] ++ segsCases r
 end
 
+/-- no second `{default}` (`sd`: one has been seen already) — a second one is rejected since /repo d0c22f5 -/
+def Cases.okSaw : Bool → Cases → Prop
+  | _, .nil => True
+  | sd, .case _ _ r => r.okSaw sd
+  | sd, .dflt _ r => sd = false ∧ r.okSaw true
+
 /-- a block closed by the tag `g` (`Tag.eof` at the top level) -/
 def closeBlk (b : Blk) (g : Tag) : List Seg := initBlk b ++ [(b.trail, g)]
 
@@ -1429,7 +1444,7 @@ mutual
     | .foreachE x e b ie => idOK x ∧ e.ok ∧ wfBlk b ∧ wfBlk ie
     | .letv x e => idOK x ∧ e.ok
     | .letc x b => idOK x ∧ wfBlk b
-    | .switch e cs => e.ok ∧ wfCases cs
+    | .switch e cs => e.ok ∧ wfCases cs ∧ cs.okSaw false
     | .call name ps => idOK name ∧ paramsOK ps
     | .callSelf name => idOK name
     | .callAll name => idOK name
@@ -1584,8 +1599,8 @@ mutual
       rcases List.mem_cons.mp hs with rfl | hs
       · exact ⟨ht, switchTag_ok h.1⟩
       · rcases List.mem_cons.mp hs with rfl | hs
-        · exact ⟨Or.inl rfl, Cases.head_ok h.2⟩
-        · exact segsCases_ok cs h.2 s hs
+        · exact ⟨Or.inl rfl, Cases.head_ok h.2.1⟩
+        · exact segsCases_ok cs h.2.1 s hs
     | t, .call name ps, ht, h => by
       simp only [segsCmd]
       intro s hs
@@ -2138,8 +2153,8 @@ theorem begin_iter (ef f : Nat) (untl : List ItemType) (lpos : Option Nat) (node
 def ifCont (ef fuel pos : Nat) (isElse : Bool) (conds : NodeList) : FP Node := do
   FileParser.backup
   let t ← FileParser.next
-  if t.typ == .tElseif then ifLoop pf ef fuel pos isElse conds
-  else if t.typ == .tElse then ifLoop pf ef fuel pos true conds
+  if t.typ == .tElseif then (if isElse then FileParser.unexpected t else ifLoop pf ef fuel pos isElse conds)
+  else if t.typ == .tElse then (if isElse then FileParser.unexpected t else ifLoop pf ef fuel pos true conds)
   else if t.typ == .tIfEnd then do
     let _ ← FileParser.expect .tRightDelim
     pure (.ifc pos conds)
@@ -2872,7 +2887,9 @@ theorem closeBlk_len (q : Nat) (b : Blk) (g : Tag) :
   omega
 
 theorem tail_els (ef : Nat) (b : Blk) (hb : BlkSpec pf ef b) : TailSpec pf ef (.els b) := by
-  intro qt fuel pos conds isElse st rest _ hin hpc htop hs hf
+  intro qt fuel pos conds isElse st rest hie hin hpc htop hs hf
+  have hie' : isElse = false := by rcases hie with h | h <;> first | exact h | exact absurd h (by simp)
+  subst hie'
   simp only [IfTail.head] at htop hs hf
   rw [(elseTag_items qt).1] at htop hs hf
   simp only [List.drop, List.getD_cons_succ, List.getD_cons_zero, List.cons_append, List.nil_append, segsTail,
@@ -2964,7 +2981,7 @@ theorem tail_elif (ef : Nat) (e : SExp) (b : Blk) (r : IfTail) (he : e.ok) (hr :
   rw [fbind_run, hb1]
   simp only
   rw [fbind_run, hn2]
-  simp only [beq_self_eq_true, if_true]
+  simp only [beq_self_eq_true, if_true, Bool.false_eq_true, if_false]
   rw [ifLoop_succ]
   simp only [Bool.not_false, if_true]
   rw [fbind_run, fbind_run, hx3]
@@ -3045,32 +3062,35 @@ theorem cmd_if (ef : Nat) (e : SExp) (b : Blk) (tl : IfTail) (he : e.ok) (hb : B
 
 /-- `parseSwitch`'s loop on the tokens of the cases `cs`, the `{` of their first tag already read -/
 def CasesSpec (ef : Nat) (cs : Cases) : Prop :=
-  ∀ (qc fuel pos : Nat) (value : Expr) (cases : NodeList) (st : FState) (rest : List Item),
-    Clean st → st.p.peekCount ≤ 1 →
+  ∀ (qc fuel pos : Nat) (value : Expr) (sd : Bool) (cases : NodeList) (st : FState) (rest : List Item),
+    cs.okSaw sd → Clean st → st.p.peekCount ≤ 1 →
     stream st.p = (cs.head.items qc).drop 1 ++ (itemsSegs (qc + cs.head.src.length) (segsCases cs) ++ rest) →
     4 * ((cs.head.items qc).length + (itemsSegs (qc + cs.head.src.length) (segsCases cs)).length) + 16 ≤ fuel →
-    ∃ st', switchLoop pf (ef + 4) fuel pos value .tSwitchEnd cases st =
+    ∃ st', switchLoop pf (ef + 4) fuel pos value .tSwitchEnd sd cases st =
         .ok (.switch pos value (cases.append (caseNodes qc cs)), st') ∧
       stream st'.p = rest ∧ st'.p.peekCount ≤ 2 ∧ Fr st st'
 
-theorem switchLoop_succ (ef fuel pos : Nat) (value : Expr) (endT : ItemType) (cases : NodeList) :
-    switchLoop pf ef (fuel + 1) pos value endT cases = (do
+theorem switchLoop_succ (ef fuel pos : Nat) (value : Expr) (endT : ItemType) (sd : Bool) (cases : NodeList) :
+    switchLoop pf ef (fuel + 1) pos value endT sd cases = (do
       let tok ← FileParser.next
-      if tok.typ == .tLeftDelim then switchLoop pf ef fuel pos value endT cases
+      if tok.typ == .tLeftDelim then switchLoop pf ef fuel pos value endT sd cases
       else if tok.typ == .tText then
-        if allSpace tok.val then switchLoop pf ef fuel pos value endT cases else FileParser.unexpected tok
-      else if tok.typ == .tCase || tok.typ == .tDefault then do
-        let c ← caseLoop pf ef fuel tok []
-        switchLoop pf ef fuel pos value endT (cases.append (.cons c .nil))
+        if allSpace tok.val then switchLoop pf ef fuel pos value endT sd cases
+        else FileParser.unexpected (atTextStart tok)
+      else if tok.typ == .tCase || tok.typ == .tDefault then
+        if tok.typ == .tDefault && sd then FileParser.unexpected tok
+        else do
+          let c ← caseLoop pf ef fuel tok []
+          switchLoop pf ef fuel pos value endT (sd || tok.typ == .tDefault) (cases.append (.cons c .nil))
       else if tok.typ == endT then do
         let _ ← FileParser.expect .tRightDelim
         pure (.switch pos value cases)
-      else if tok.typ == .tComment then switchLoop pf ef fuel pos value endT cases
+      else if tok.typ == .tComment then switchLoop pf ef fuel pos value endT sd cases
       else FileParser.unexpected tok) := by
   rw [switchLoop]
 
 theorem cases_nil (ef : Nat) : CasesSpec pf ef .nil := by
-  intro qc fuel pos value cases st rest hin hpc hs hf
+  intro qc fuel pos value sd cases st rest _ hin hpc hs hf
   simp only [Cases.head] at hs hf
   rw [(closeSwitch_items qc).1] at hs hf
   simp only [List.drop, List.cons_append, List.nil_append, segsCases, itemsSegs, List.length_cons, List.length_nil] at hs hf
@@ -3110,7 +3130,7 @@ theorem after_body (ef : Nat) (b : Blk) (r : Cases) (hb : BlkSpec pf ef b) (hrs 
     ∃ st1 st2, itemListLoop pf (ef + 4) f [.tCase, .tDefault, .tSwitchEnd, .tPluralEnd] none .nil st =
         .ok (.list (headPos (itemsSegs qb (closeBlk b r.head))) (nodesBlk qb b), st1) ∧
       FileParser.backup st1 = .ok ((), st2) ∧
-      (∀ cases', ∃ st3, switchLoop pf (ef + 4) (f + 1) pos value .tSwitchEnd cases' st2 =
+      (∀ sd', r.okSaw sd' → ∀ cases', ∃ st3, switchLoop pf (ef + 4) (f + 1) pos value .tSwitchEnd sd' cases' st2 =
           .ok (.switch pos value (cases'.append (caseNodes (qb + lenBlk b) r)), st3) ∧
         stream st3.p = rest ∧ st3.p.peekCount ≤ 2 ∧ Fr st st3) := by
   obtain ⟨hstop, hne⟩ := stops_cases r
@@ -3123,9 +3143,9 @@ theorem after_body (ef : Nat) (b : Blk) (r : Cases) (hb : BlkSpec pf ef b) (hrs 
     rw [hs2, (ht1 hne).1, hs1, hit]; rfl
   refine ⟨st1, st2, ?_, hb2, ?_⟩
   · rw [hl1]; simp only [Option.getD_none, NodeList.append]
-  · intro cases'
+  · intro sd' hsd' cases'
     have hcl := closeBlk_len qb b r.head
-    obtain ⟨st3, hl3, hs3, hp3, hfr3⟩ := hrs (qb + lenBlk b) (f + 1) pos value cases' st2 rest
+    obtain ⟨st3, hl3, hs3, hp3, hfr3⟩ := hrs (qb + lenBlk b) (f + 1) pos value sd' cases' st2 rest hsd'
       (Fr.clean (hfr1.trans hfr2) hin) (by have := (ht1 hne).2; omega) hs2' (by omega)
     exact ⟨st3, hl3, hs3, hp3, (hfr1.trans hfr2).trans hfr3⟩
 
@@ -3146,7 +3166,7 @@ theorem caseLoop_succ (ef fuel : Nat) (token : Item) (values : List Expr) :
 
 theorem cases_case (ef : Nat) (v : SExp) (b : Blk) (r : Cases) (hv : v.ok) (hb : BlkSpec pf ef b) (hrs : CasesSpec pf ef r) :
     CasesSpec pf ef (.case v b r) := by
-  intro qc fuel pos value cases st rest hin hpc hs hf
+  intro qc fuel pos value sd cases st rest hsd hin hpc hs hf
   simp only [Cases.head] at hs hf
   rw [(caseTag_items v qc).1] at hs hf
   simp only [List.drop, List.cons_append, List.nil_append, segsCases, (caseTag_items v qc).2, List.length_cons,
@@ -3165,14 +3185,14 @@ theorem cases_case (ef : Nat) (v : SExp) (b : Blk) (r : Cases) (hv : v.ok) (hb :
   have hfr03 := (hfr1.trans hfr2).trans hfr3
   obtain ⟨st4, st5, hl4, hb5, hrest⟩ := after_body pf ef b r hb hrs (qc + (7 + v.elem.src.length)) f pos value
     st3 rest (Fr.clean hfr03 hin) (by omega) (by rw [hs3]; simp) (by omega)
-  obtain ⟨st6, hl6, hs6, hp6, hfr6⟩ := hrest (cases.append (.cons (.switchCase (qc + 5) [exprOf (qc + 6 + v.elem.src.length) v]
+  obtain ⟨st6, hl6, hs6, hp6, hfr6⟩ := hrest sd hsd (cases.append (.cons (.switchCase (qc + 5) [exprOf (qc + 6 + v.elem.src.length) v]
     (.list (headPos (itemsSegs (qc + (7 + v.elem.src.length)) (closeBlk b r.head))) (nodesBlk (qc + (7 + v.elem.src.length)) b))) .nil))
   refine ⟨st6, ?_, hs6, hp6, hfr03.trans hfr6⟩
-  show switchLoop pf (ef + 4) ((f + 1) + 1) pos value .tSwitchEnd cases st = _
+  show switchLoop pf (ef + 4) ((f + 1) + 1) pos value .tSwitchEnd sd cases st = _
   rw [switchLoop_succ, fbind_run, hn1]
   simp only [show (ItemType.tCase == ItemType.tLeftDelim) = false by decide,
     show (ItemType.tCase == ItemType.tText) = false by decide, beq_self_eq_true, Bool.true_or, Bool.false_eq_true,
-    if_false, if_true]
+    if_false, if_true, show (ItemType.tCase == ItemType.tDefault) = false by decide, Bool.false_and, Bool.or_false]
   rw [fbind_run]
   have hcl : caseLoop pf (ef + 4) (f + 1) ⟨.tCase, qc + 5, kCase⟩ [] st1 =
       .ok (.switchCase (qc + 5) [exprOf (qc + 6 + v.elem.src.length) v]
@@ -3197,7 +3217,8 @@ theorem cases_case (ef : Nat) (v : SExp) (b : Blk) (r : Cases) (hv : v.ok) (hb :
 
 theorem cases_dflt (ef : Nat) (b : Blk) (r : Cases) (hb : BlkSpec pf ef b) (hrs : CasesSpec pf ef r) :
     CasesSpec pf ef (.dflt b r) := by
-  intro qc fuel pos value cases st rest hin hpc hs hf
+  intro qc fuel pos value sd cases st rest hsd hin hpc hs hf
+  obtain ⟨rfl, hsd'⟩ := hsd
   simp only [Cases.head] at hs hf
   rw [(defaultTag_items qc).1] at hs hf
   simp only [List.drop, List.cons_append, List.nil_append, segsCases, (defaultTag_items qc).2, List.length_cons,
@@ -3214,14 +3235,14 @@ theorem cases_dflt (ef : Nat) (b : Blk) (r : Cases) (hb : BlkSpec pf ef b) (hrs 
   have hfr03 := hfr1.trans hfr3
   obtain ⟨st4, st5, hl4, hb5, hrest⟩ := after_body pf ef b r hb hrs (qc + 9) f pos value
     st3 rest (Fr.clean hfr03 hin) (by omega) (by rw [hs3]; simp) (by omega)
-  obtain ⟨st6, hl6, hs6, hp6, hfr6⟩ := hrest (cases.append (.cons (.switchCase (qc + 8) []
+  obtain ⟨st6, hl6, hs6, hp6, hfr6⟩ := hrest true hsd' (cases.append (.cons (.switchCase (qc + 8) []
     (.list (headPos (itemsSegs (qc + 9) (closeBlk b r.head))) (nodesBlk (qc + 9) b))) .nil))
   refine ⟨st6, ?_, hs6, hp6, hfr03.trans hfr6⟩
-  show switchLoop pf (ef + 4) ((f + 1) + 1) pos value .tSwitchEnd cases st = _
+  show switchLoop pf (ef + 4) ((f + 1) + 1) pos value .tSwitchEnd false cases st = _
   rw [switchLoop_succ, fbind_run, hn1]
   simp only [show (ItemType.tDefault == ItemType.tLeftDelim) = false by decide,
     show (ItemType.tDefault == ItemType.tText) = false by decide, beq_self_eq_true, Bool.or_true, Bool.false_eq_true,
-    if_false, if_true]
+    if_false, if_true, Bool.and_false, Bool.false_or]
   rw [fbind_run]
   have hcl : caseLoop pf (ef + 4) (f + 1) ⟨.tDefault, qc + 8, kDefault⟩ [] st1 =
       .ok (.switchCase (qc + 8) []
@@ -3242,7 +3263,8 @@ theorem cases_dflt (ef : Nat) (b : Blk) (r : Cases) (hb : BlkSpec pf ef b) (hrs 
   rw [hl6]
   simp only [caseNodes, nl_append_assoc, NodeList.append, (defaultTag_items qc).2]
 
-theorem cmd_switch (ef : Nat) (e : SExp) (cs : Cases) (he : e.ok) (hcs : CasesSpec pf ef cs) : CmdSpec pf ef (.switch e cs) := by
+theorem cmd_switch (ef : Nat) (e : SExp) (cs : Cases) (he : e.ok) (hok : cs.okSaw false) (hcs : CasesSpec pf ef cs) :
+    CmdSpec pf ef (.switch e cs) := by
   intro q t fuel st rest hin hpc hs hf
   have hit : itemsSegs q (segsCmd t (.switch e cs)) = textItem t (q + t.length) ++ ((switchTag e).items (q + t.length) ++
       (cs.head.items (q + t.length + (switchTag e).src.length) ++
@@ -3267,7 +3289,7 @@ theorem cmd_switch (ef : Nat) (e : SExp) (cs : Cases) (he : e.ok) (hcs : CasesSp
   obtain ⟨st4, hn4, hs4, ht4, hp4, hfr4⟩ := fnext_stream' (st := st3) (by omega) (by simpa using hs3)
   have hfr04 := ((hfr1.trans hfr2).trans hfr3).trans hfr4
   obtain ⟨st5, hl5, hs5, hp5, hfr5⟩ := hcs (q + t.length + (switchTag e).src.length) (f + 1) (q + t.length + 7)
-    (exprOf (q + t.length + 8 + e.elem.src.length) e) .nil st4 rest (Fr.clean hfr04 hin) (by omega)
+    (exprOf (q + t.length + 8 + e.elem.src.length) e) false .nil st4 rest hok (Fr.clean hfr04 hin) (by omega)
     (by rw [hs4, hhd]; simp) (by omega)
   refine ⟨st5, ?_, hs5, hp5, hfr04.trans hfr5⟩
   show beginTag pf (ef + 4) ((f + 3) + 1) st = _
@@ -3285,7 +3307,7 @@ theorem cmd_switch (ef : Nat) (e : SExp) (cs : Cases) (he : e.ok) (hcs : CasesSp
     simp only
     rw [fbind_run, he3]
     simp only
-    show switchLoop pf (ef + 4) ((f + 1) + 1) _ _ _ _ st3 = _
+    show switchLoop pf (ef + 4) ((f + 1) + 1) _ _ _ _ _ st3 = _
     rw [switchLoop_succ, fbind_run, hn4]
     simp only [hld, beq_self_eq_true, if_true]
     rw [hl5]
@@ -3598,7 +3620,7 @@ mutual
     | .foreachE x e b ie, h => cmd_foreachE pf ef x e b ie h.2.1 (spec_blk ef b h.2.2.1) (spec_blk ef ie h.2.2.2)
     | .letv x e, h => cmd_letv pf ef x e h.2
     | .letc x b, h => cmd_letc pf ef x b (spec_blk ef b h.2)
-    | .switch e cs, h => cmd_switch pf ef e cs h.1 (spec_cases ef cs h.2)
+    | .switch e cs, h => cmd_switch pf ef e cs h.1 h.2.2 (spec_cases ef cs h.2.1)
     | .call name ps, h => cmd_call pf ef name ps h.2
     | .callSelf name, _ => cmd_callSelf pf ef name
     | .callAll name, _ => cmd_callAll pf ef name
@@ -3727,7 +3749,7 @@ def exSwitch : Blk :=
   (.done [32, 113])
 
 theorem exSwitch_wf : wfBlk exSwitch := by
-  simp only [exSwitch, wfBlk, wfCmd, wfTail, wfCases, SExp.ok]
+  simp only [exSwitch, wfBlk, wfCmd, wfTail, wfCases, Cases.okSaw, SExp.ok]
   decide
 
 theorem exSwitch_src : srcOf exSwitch =
